@@ -25,6 +25,8 @@ DIMS = {
     # element kind shows at radius 1 (with the one-sided '++' baseline only the restriction deviations of P1 reached the '-' blocks)
     "restr": (["ja", "++", "+-", "-+", "--", "jj", "aa"], ["+-", "-+", "jj", "++"]),
     "scalar": (["float64", "float32", "complex128", "complex64"], ["complex128"]),
+    # "two": the test space lives on a second Mesh object of the same cells (parent mesh / codim-0 sub-mesh); key carries it only when set
+    "mesh2": (["one", "two"], ["two"]),
 }
 CELLS = ["triangle", "interval", "quadrilateral", "tetrahedron", "hexahedron", "prism"]
 
@@ -39,6 +41,11 @@ def baseline(cell, itype):
 
 def apply(cfg, dim, value):
     c = dict(cfg)
+    if dim == "mesh2":
+        c.pop("mesh2", None)
+        if value != "one":
+            c["mesh2"] = value
+        return c
     if dim == "elem":
         c["test"] = c["trial"] = value
     else:
@@ -47,11 +54,13 @@ def apply(cfg, dim, value):
 
 
 def current(cfg, dim):
+    if dim == "mesh2":
+        return cfg.get("mesh2", "one")
     return cfg["test"] if dim == "elem" else cfg.get(dim)
 
 
 def key(cfg):
-    order = ("cell", "itype", "tp", "geom", "arity", "test", "trial", "op", "factor", "wrap", "quad", "subdomain", "restr", "scalar")
+    order = ("cell", "itype", "tp", "mesh2", "geom", "arity", "test", "trial", "op", "factor", "wrap", "quad", "subdomain", "restr", "scalar")
     return ",".join(f"{k}={cfg[k]}" for k in order if k in cfg)
 
 
